@@ -335,7 +335,7 @@ func (b *builder) bandStorage(l *logical, extra int) blas64.Band {
 	kl, ku := l.kl, l.ku
 	rows := min(l.r, l.c+kl)
 	st := kl + ku + 1 + extra
-	d := b.sentinels((rows-1)*st + kl + ku + 1)
+	d := b.sentinels(rows * st) // lapack64.Langb insists on rows*stride elements
 	for i := 0; i < rows; i++ {
 		for j := max(0, i-kl); j <= min(l.c-1, i+ku); j++ {
 			d[i*st+j-i+kl] = l.v[i*l.c+j]
